@@ -25,7 +25,8 @@ EXPLANATION = (
     "read from (j*stride + i is injective and column-major only then); (R5) PSD completion assigns W[eta, nu] with eta filtered "
     "against both the separator and the supernode nu it is paired with, so the clique blocks determined by the solve are not "
     "overwritten, and the cliques are visited root-first (descending post-order) there and in the compact row layout; (R6) the "
-    "aggregate sparsity mask marks every row with a stored entry of A and every row with b != 0 (either sign).")
+    "aggregate sparsity mask marks every row with a stored entry of A and every row with b != 0 (either sign); (R7) the overlap "
+    "counts used to average the dual in the standard-form reversal are aligned with the list of overlapped rows.")
 ASSUMPTIONS = ['rustc MIR construction and trait resolution are correct',
                'the sdp code is analysed by type-checking only (cargo check with empty blas-src/lapack-src); it is never linked or run']
 
@@ -474,6 +475,35 @@ def sparsity_mask(rep, F, tag):
     R.guard(body)
 
 
+def overlap_average(rep, F, tag):
+    """Standard-form reversal averages the dual over the cliques that share an entry: z[ri] /= (number of blocks containing row
+    ri).  The list of overlapped rows and the list of divisors are zipped, so the divisors must be the row sums *selected at
+    those rows* (same index list), not the full row-sum vector."""
+    R = rep.rule('C18.R7', 'standard-form reversal: the overlap counts are the row sums of H selected at the overlapped rows (aligned with the row list)')
+
+    def body():
+        f = F.one(name='number_of_overlaps_in_rows')
+        r = canon(f.sym_local(0))
+        parts = split_args(r) if r.startswith('tuple(') else []
+        cl = [canon(g.sym_local(0)) for g in F.closures_of.get(f.key, [])]
+        ok = len(parts) == 2 and parts[1] == 'collect(map(iter(%s), closure(%s)))' % (parts[0], parts[0].split('iter(', 1)[1].split(')), closure', 1)[0] + ')' if 'iter(' in parts[0] else '?')
+        # robust form: second component maps the *first* component through an indexing closure over the row-sum vector
+        ok = len(parts) == 2 and parts[1].startswith('collect(map(iter(%s), closure(' % parts[0]) and any(re.fullmatch(r'index\(arg1\._ref__\w+, arg2\)', c) for c in cl)
+        R.check(ok, 'aligned-counts' + tag,
+                'number_of_overlaps_in_rows returns %s: the divisors must be the row sums taken at the returned row indices; zipping the row list with '
+                'the full row-sum vector divides each shared dual entry by the count of an unrelated row' % r[:200], f.loc())
+        R.check(any(c == 'lt(one(), arg2)' for c in cl), 'overlap-test' + tag, 'overlapped rows are selected by %s, expected row sum > 1' % cl, f.loc())
+        g = F.one(name='decomp_reverse_standard')
+        zs = [c for c in g.calls if c.callee.name == 'zip']
+        a = [canon(g.sym_operand(x)) for x in zs[0].args] if len(zs) == 1 else []
+        R.check(len(a) == 2 and a[0].endswith('.0') and a[1].endswith('.1') and a[0][:-2] == a[1][:-2], 'zip-components' + tag, 'decomp_reverse_standard zips %s' % a, g.loc())
+        dv = [c for c in g.calls if c.callee.name == 'div_assign']
+        R.check(len(dv) == 1 and canon(g.sym_operand(dv[0].args[0])).startswith('index_mut(arg2.z, ') and canon(g.sym_operand(dv[0].args[0])).endswith('@Some.0.0)') and canon(g.sym_operand(dv[0].args[1])).endswith('@Some.0.1'),
+                'average' + tag, 'the average is %s' % [[canon(g.sym_operand(x))[-40:] for x in c.args] for c in dv], g.loc())
+
+    R.guard(body)
+
+
 def run(ctx, rep, tier):
     stage_rules(ctx, rep, 'C18.R1')
     for cfg in (CONFIGS_THOROUGH if tier == 'thorough' else CONFIGS):
@@ -484,6 +514,7 @@ def run(ctx, rep, tier):
         index_spaces(rep, F, tag)
         completion_disjoint(rep, F, tag)
         sparsity_mask(rep, F, tag)
+        overlap_average(rep, F, tag)
     from . import c05
     for cfg in CONFIGS:
         c05.hash_order(rep, ctx.facts(cfg), ctx.cg(cfg), '[%s]' % cfg)
